@@ -141,6 +141,24 @@ Theorem C03_sm_write_cap_bound : forall s : smset, c03_cap_domb s = true ->
             /\ Forall2 (chart_cap_denotes init l) (d_charts d) (s_maps s).
 Proof. exact sm_write_cap_bound. Qed.
 
+(* ---- TEMPO: the tempo list the written text denotes is the mapset's tempo list (d_tempo = beat, bpm, ms of every #BPMS
+   pair under the reference semantics): same number of tempo changes, and every tempo row (offset, bpm) of the first chart
+   is a tempo change of the text at the row's cumulative beat, with its bpm, at its millisecond offset — for both domains ---- *)
+Theorem C03_sm_write_tempo : forall s : smset, c03_domb s = true ->
+  exists toks, sm_write live_conf current s = Some toks /\
+    forall txt, match_toks 0 toks txt = true ->
+      exists d, sm_denote txt = Some d
+        /\ exists init l, match s_maps s with c0 :: _ => tempo_script_of live_conf (c_bpms c0) = Some (init, l) /\ tempo_denotes d (c_bpms c0) init l
+                                             | [] => False end.
+Proof. exact sm_write_tempo. Qed.
+Theorem C03_sm_write_tempo_cap : forall s : smset, c03_cap_domb s = true ->
+  exists toks, sm_write live_conf current s = Some toks /\
+    forall txt, match_toks 0 toks txt = true ->
+      exists d, sm_denote txt = Some d
+        /\ exists init l, match s_maps s with c0 :: _ => tempo_script_of live_conf (c_bpms c0) = Some (init, l) /\ tempo_denotes d (c_bpms c0) init l
+                                             | [] => False end.
+Proof. exact sm_write_tempo_cap. Qed.
+
 (* ---- READ-BACK (C03 o C02): SMMapSet.read of the written text gives the mapset back.  For every mapset of the exact
    domain and every exact rendering txt of its written tokens that lies in the reader's decidable domain c02_domb
    (Formats/SMReadDom.v, THE domain of C02_sm_read_denotes: reader dialect, header items, rows a multiple of 4, tempo
